@@ -7,6 +7,7 @@ import XonshVerif.Proofs.PegConsume
 import XonshVerif.Proofs.PegSpec
 import XonshVerif.Proofs.PegSpecDet
 import XonshVerif.Proofs.PegSpecDeco
+import XonshVerif.Proofs.PegSpecRange
 import XonshVerif.Proofs.PegComplete
 import XonshVerif.Proofs.PegTotal
 import XonshVerif.Proofs.PegMono
@@ -340,6 +341,17 @@ theorem removing_memo_flags_changes_no_answer (P : Prog) (w : Array RTok) (hP : 
 /-- non-vacuity: the example program without its `(memo)` flag is another plain program with the same bodies -/
 example : SameBodies plainProg (dropMemo plainProg) := dropMemo_sameBodies plainProg
 example : plainB (dropMemo plainProg) = true := by decide +kernel
+
+/-- **matches_are_forward_ranges.**  In the semantics a rule that matches from position `p` ends at an `e` with
+    `p ≤ e ≤ max p (number of tokens)`: a match is a forward range inside the token list (look-aheads and empty matches end at `p`). -/
+theorem matches_are_forward_ranges (prog : Prog) (w : Array RTok) (id p e : Nat) (h : SRule prog w id p (some e)) :
+    p ≤ e ∧ e ≤ max p w.size := SRule.rng h e rfl
+
+/-- ... hence so is every `ok` answer of the recogniser on a plain program -/
+theorem ok_answers_are_forward_ranges (prog : Prog) (w : Array RTok) (hpl : plainB prog = true) (fuel id : Nat) (s : St)
+    (hc : CacheOK s) (hs : CSound prog w s) (e : Nat) (he : (execRule prog w fuel id s).1 = .ok e) :
+    s.pos ≤ e ∧ e ≤ max s.pos w.size :=
+  matches_are_forward_ranges prog w id s.pos e ((recogniser_sound_for_peg_semantics prog w hpl fuel id s hc hs).1 e he)
 
 /-- **recogniser_complete_for_peg_semantics.**  The converse, on the pure fragment (`pureB`: plain, every action truthy, no
     rule that peeks at its first token's location): whenever the semantics derives an outcome `r` for a rule at a position,
